@@ -1978,7 +1978,7 @@ fn c15_tape_usable_after_error_behind_a_long_block() {
 // @tier quick
 // @timeout 900
 // @fn Tap::next_block (skipping the unread rest of the previous block); Tap::next_block_byte; LoadableAsset::read_exact
-// @sym contents of a 130-byte block (longer than the 128-byte read buffer) and the byte of the block that follows it; how many bytes of the first block a request consumed before the next request arrives: 0, 1, 127, 128, 129 or all 130 (literal cases, incl. exactly one buffer)
+// @sym the byte of the block that follows a 130-byte block (longer than the 128-byte read buffer; its contents are literal); how many bytes of the first block a request consumed before the next request arrives: 0, 1, 127, 128, 129 or all 130 (literal cases, incl. exactly one buffer)
 // @assert every request consumes exactly the next block: after a request that stopped anywhere inside the long block (also exactly at the 128-byte buffer boundary), the next request finds the FOLLOWING block - its byte, then its end, then the end of the tape
 // @bound 130-byte block + 1-byte block (unwind 135)
 #[kani::proof]
@@ -1997,7 +1997,10 @@ fn c10_partial_request_is_followed_by_the_next_block() {
 }
 
 fn partial_then_next(consumed: usize) {
-    let (seed, x): (u8, u8) = (kani::any(), kani::any());
+    // the data bytes of the long block are literal (0xA5 ^ position): a mis-framing reader then parses a
+    // CONSTANT wrong length instead of a symbolic one, which keeps the query decidable on broken code too
+    let seed: u8 = 0xA5;
+    let x: u8 = kani::any();
     let asset = SynthTape { pos: 0, len: 2 + 130 + 2 + 1, len1: 130, len2: 1, seed, x };
     let mut t = match Tap::from_asset(asset) {
         Ok(t) => t,
